@@ -21,20 +21,90 @@ fn opt(v: Option<Vec<i64>>) -> String
     match v { Some(v) => format!("ok {}", join(&v)), None => "panic".to_string() }
 }
 
-fn ops_on(out: &mut Out, idxs: &[usize], rng: &mut SplitMix64)
+/// A mis-sized call (the property says nothing about its result; the model does): executed under catch_unwind.
+#[derive(Clone)]
+struct Fault { kind: &'static str, idxs: Vec<usize>, rows: usize, cols: usize, data: Vec<i64> }
+
+impl Fault
+{
+    /// request text: `xinplace p | v`, `xinto p | dstlen | v`, `xinvinto p | dstlen | v`, `xtransform p | rows cols | a`
+    fn req(&self) -> String
+    {
+        match self.kind
+        {
+            "xinplace" => format!("xinplace {} | {}", join(&self.idxs), join(&self.data)),
+            "xtransform" => format!("xtransform {} | {} {} | {}", join(&self.idxs), self.rows, self.cols, join(&self.data)),
+            k => format!("{} {} | {} | {}", k, join(&self.idxs), self.cols, join(&self.data))
+        }
+    }
+    /// perform the call on the current thread; answer `ok <result>` or `panic`
+    fn run(&self) -> String
+    {
+        let f = self.clone();
+        opt(catch(move || {
+            let p = Permutation::new(f.idxs.clone()).unwrap();
+            match f.kind
+            {
+                "xinplace" => { let mut w = ndarray::Array1::from_vec(f.data.clone()); p.apply_vec_in_place(&mut w); w.to_vec() },
+                "xinto" => {
+                    let src = ndarray::Array1::from_vec(f.data.clone());
+                    let mut dst = ndarray::Array1::<i64>::zeros(f.cols);
+                    p.apply_vec_into(src.view(), dst.view_mut());
+                    dst.to_vec() },
+                "xinvinto" => {
+                    let src = ndarray::Array1::from_vec(f.data.clone());
+                    let mut dst = ndarray::Array1::<i64>::zeros(f.cols);
+                    p.apply_inverse_vec_into(src.view(), dst.view_mut());
+                    dst.to_vec() },
+                _ => {
+                    let m = ndarray::Array2::from_shape_vec((f.rows, f.cols), f.data.clone()).unwrap();
+                    p.transform(&m).iter().cloned().collect() }
+            }
+        }))
+    }
+}
+
+/// Run one operation: directly (no history), or - with a history - on a FRESH thread on which the mis-sized call is made
+/// first and the operation immediately afterwards (so the request line `@after <fault> @ <op>` is the whole history of
+/// the thread and replays on its own).
+fn exec<T: Send, F: FnOnce() -> T + Send + std::panic::UnwindSafe>(pre: Option<&Fault>, f: F) -> Option<T>
+{
+    match pre
+    {
+        None => catch(f),
+        Some(fl) => std::thread::scope(|s| s.spawn(|| { let _ = fl.run(); catch(f) }).join().unwrap_or(None))
+    }
+}
+
+/// which operations: everything, or everything but the O(n^2)-payload ones (matrix, transform in all variants)
+#[derive(Clone, Copy, PartialEq)]
+enum Level { Full, Vec }
+
+fn ops_on(out: &mut Out, idxs: &[usize], rng: &mut SplitMix64) { ops_on_ctx(out, idxs, rng, None, Level::Full, false) }
+
+fn ops_on_ctx(out0: &mut Out, idxs: &[usize], rng: &mut SplitMix64, pre: Option<&Fault>, level: Level, marked: bool)
 {
     let n = idxs.len();
     let mk = || Permutation::new(idxs.to_vec()).unwrap();
-    let v: Vec<i64> = (0..n).map(|_| rng.range(-99, 99)).collect();
-    let a: Vec<i64> = (0..n*n).map(|_| rng.range(-99, 99)).collect();
+    // `marked`: pairwise distinct non-zero payload, so that an element that was not written (0) or written twice shows
+    let sign = if rng.coin() { 1 } else { -1 };
+    let v: Vec<i64> = if marked { (0..n).map(|i| sign * ((i as i64 + 1) * 10 + rng.range(0, 9))).collect() }
+                      else { (0..n).map(|_| rng.range(-99, 99)).collect() };
+    let a: Vec<i64> = if level == Level::Full { (0..n*n).map(|_| rng.range(-99, 99)).collect() } else { vec![] };
     let is = join(idxs);
     let vs = join(&v);
+    let prefix = match pre { None => String::new(), Some(f) => format!("@after {} @ ", f.req()) };
+    struct Pfx<'a> { out: &'a mut Out, prefix: String }
+    impl<'a> Pfx<'a> { fn case(&mut self, req: &str, ans: &str) { let r = format!("{}{}", self.prefix, req); self.out.case(&r, ans); } }
+    let mut out = Pfx { out: out0, prefix };
+    let out = &mut out;
+    let full = level == Level::Full;
 
     out.case(&format!("inverse {}", is),
-        &match catch(|| mk().inverse().indices().to_vec()) { Some(l) => format!("ok {}", join(&l)), None => "panic".into() });
+        &match exec(pre, || mk().inverse().indices().to_vec()) { Some(l) => format!("ok {}", join(&l)), None => "panic".into() });
     {
         let v = v.clone();
-        out.case(&format!("into {} | {}", is, vs), &opt(catch(|| {
+        out.case(&format!("into {} | {}", is, vs), &opt(exec(pre, || {
             let src = ndarray::Array1::from_vec(v);
             let mut dst = ndarray::Array1::<i64>::zeros(n);
             mk().apply_vec_into(src.view(), dst.view_mut());
@@ -43,7 +113,7 @@ fn ops_on(out: &mut Out, idxs: &[usize], rng: &mut SplitMix64)
     }
     {
         let v = v.clone();
-        out.case(&format!("invinto {} | {}", is, vs), &opt(catch(|| {
+        out.case(&format!("invinto {} | {}", is, vs), &opt(exec(pre, || {
             let src = ndarray::Array1::from_vec(v);
             let mut dst = ndarray::Array1::<i64>::zeros(n);
             mk().apply_inverse_vec_into(src.view(), dst.view_mut());
@@ -52,26 +122,27 @@ fn ops_on(out: &mut Out, idxs: &[usize], rng: &mut SplitMix64)
     }
     {
         let v = v.clone();
-        out.case(&format!("inplace {} | {}", is, vs), &opt(catch(|| {
+        out.case(&format!("inplace {} | {}", is, vs), &opt(exec(pre, || {
             let mut w = ndarray::Array1::from_vec(v);
             mk().apply_vec_in_place(&mut w);
             w.to_vec()
         })));
     }
-    out.case(&format!("matrix {} |", is), &opt(catch(|| {
+    if full { out.case(&format!("matrix {} |", is), &opt(exec(pre, || {
         let m: ndarray::Array2<i64> = mk().matrix();
         m.iter().cloned().collect()
-    })));
+    }))); }
     {
         let v = v.clone();
-        out.case(&format!("matvec {} | {}", is, vs), &opt(catch(|| {
+        out.case(&format!("matvec {} | {}", is, vs), &opt(exec(pre, || {
             let m: ndarray::Array2<i64> = mk().matrix();
             m.dot(&ndarray::Array1::from_vec(v)).to_vec()
         })));
     }
+    if full
     {
         let a2 = a.clone();
-        out.case(&format!("transform {} | {}", is, join(&a)), &opt(catch(|| {
+        out.case(&format!("transform {} | {}", is, join(&a)), &opt(exec(pre, || {
             let m = ndarray::Array2::from_shape_vec((n, n), a2).unwrap();
             mk().transform(&m).iter().cloned().collect()
         })));
@@ -81,13 +152,16 @@ fn ops_on(out: &mut Out, idxs: &[usize], rng: &mut SplitMix64)
     // exercised on objects that came out of inverse() (once, twice, three times) and not only out of new()
     for k in 1..=3usize
     {
-        out.case(&format!("invk {} | {}", is, k), &match catch(|| {
+        // (without the O(n^2) operations: one depth per permutation, varying with the permutation)
+        // one ODD depth, 1 or 3 (so the inverse of every structured permutation goes through every operation as well)
+        if !full && k != 1 + 2 * ((idxs.iter().enumerate().map(|(i, &x)| i * x).sum::<usize>() + n) % 2) { continue; }
+        out.case(&format!("invk {} | {}", is, k), &match exec(pre, || {
             let mut q = mk(); for _ in 0..k { q = q.inverse(); } q.indices().to_vec() })
             { Some(l) => format!("ok {}", join(&l)), None => "panic".into() });
         for op in ["into", "invinto", "inplace", "matvec"].iter()
         {
             let v = v.clone();
-            out.case(&format!("d{} {} | {} | {}", op, is, k, vs), &opt(catch(|| {
+            out.case(&format!("d{} {} | {} | {}", op, is, k, vs), &opt(exec(pre, || {
                 let mut q = mk(); for _ in 0..k { q = q.inverse(); }
                 let src = ndarray::Array1::from_vec(v);
                 let mut dst = ndarray::Array1::<i64>::zeros(n);
@@ -101,8 +175,9 @@ fn ops_on(out: &mut Out, idxs: &[usize], rng: &mut SplitMix64)
                 dst.to_vec()
             })));
         }
+        if !full { continue; }
         let a3 = a.clone();
-        out.case(&format!("dtransform {} | {} | {}", is, k, join(&a)), &opt(catch(|| {
+        out.case(&format!("dtransform {} | {} | {}", is, k, join(&a)), &opt(exec(pre, || {
             let mut q = mk(); for _ in 0..k { q = q.inverse(); }
             let m = ndarray::Array2::from_shape_vec((n, n), a3).unwrap();
             q.transform(&m).iter().cloned().collect()
@@ -113,21 +188,21 @@ fn ops_on(out: &mut Out, idxs: &[usize], rng: &mut SplitMix64)
     {
         use ndarray::ShapeBuilder;
         let a4 = a.clone();
-        out.case(&format!("transform_f {} | {}", is, join(&a)), &opt(catch(|| {
+        if full { out.case(&format!("transform_f {} | {}", is, join(&a)), &opt(exec(pre, || {
             let rm = ndarray::Array2::from_shape_vec((n, n), a4).unwrap();
             let mut cm = ndarray::Array2::<i64>::zeros((n, n).f());
             cm.assign(&rm);
             assert!(n < 2 || !cm.is_standard_layout());
             mk().transform(&cm).iter().cloned().collect()
-        })));
+        }))); }
         let a5 = a.clone();
-        out.case(&format!("transform_t {} | {}", is, join(&a)), &opt(catch(|| {
+        if full { out.case(&format!("transform_t {} | {}", is, join(&a)), &opt(exec(pre, || {
             let rm = ndarray::Array2::from_shape_vec((n, n), a5).unwrap();
             let t = rm.t().to_owned().reversed_axes();   // logically rm again, memory order transposed
             mk().transform(&t).iter().cloned().collect()
-        })));
+        }))); }
         let v6 = v.clone();
-        out.case(&format!("into_strided {} | {}", is, vs), &opt(catch(|| {
+        out.case(&format!("into_strided {} | {}", is, vs), &opt(exec(pre, || {
             // source = every second element of a longer array, destination = reversed view of a buffer
             let mut long = ndarray::Array1::<i64>::zeros(2 * n);
             for i in 0..n { long[2 * i] = v6[i]; long[2 * i + 1] = -7777; }
@@ -140,7 +215,7 @@ fn ops_on(out: &mut Out, idxs: &[usize], rng: &mut SplitMix64)
             let mut r = buf.to_vec(); r.reverse(); r
         })));
         let v7 = v.clone();
-        out.case(&format!("invinto_strided {} | {}", is, vs), &opt(catch(|| {
+        out.case(&format!("invinto_strided {} | {}", is, vs), &opt(exec(pre, || {
             let mut long = ndarray::Array1::<i64>::zeros(3 * n);
             for i in 0..n { long[3 * i] = v7[i]; }
             let src = long.slice(s![..;3]);
@@ -148,6 +223,179 @@ fn ops_on(out: &mut Out, idxs: &[usize], rng: &mut SplitMix64)
             mk().apply_inverse_vec_into(src, buf.column_mut(1));
             buf.column(1).to_vec()
         })));
+    }
+}
+
+
+// ------------------------------------------------------------------------------------------------------------------
+// structured permutations (random shuffles practically never have runs of consecutive indices, aligned blocks, long
+// fixed prefixes or a prescribed cycle type)
+
+fn inverse_of(p: &[usize]) -> Vec<usize> { let mut q = vec![0; p.len()]; for (i, &pi) in p.iter().enumerate() { q[pi] = i; } q }
+
+/// product of disjoint cycles of the given lengths laid over `labels` (rest fixed)
+fn from_cycles(n: usize, lens: &[usize], labels: &[usize]) -> Vec<usize>
+{
+    let mut p: Vec<usize> = (0..n).collect();
+    let mut s = 0;
+    for &l in lens
+    {
+        if l == 0 || s + l > n { break; }
+        for i in 0..l { p[labels[s + i]] = labels[s + (i + 1) % l]; }
+        s += l;
+    }
+    p
+}
+
+fn structured(n: usize, rng: &mut SplitMix64, dense: bool) -> Vec<Vec<usize>>
+{
+    let id: Vec<usize> = (0..n).collect();
+    let mut ps: Vec<Vec<usize>> = vec![id.clone(), (0..n).rev().collect()];
+    // rotations: by every k (dense), so by divisors and non-divisors of n alike
+    let interesting: Vec<usize> = [1, 2, 3, 4, 5, 7, 8, 9, 12, 15, 16, 17, 24, 31, 32, 33, 63, 64, 65, n / 2, n / 3, (2 * n) / 3,
+        n.saturating_sub(1), n.saturating_sub(2), n.saturating_sub(4), n.saturating_sub(8), n.saturating_sub(9), n.saturating_sub(16)]
+        .iter().cloned().filter(|&k| k > 0 && k < n).collect();
+    let ks: Vec<usize> = if dense { (1..n).collect() } else { interesting.clone() };
+    for &k in ks.iter() { ps.push((0..n).map(|i| (i + k) % n).collect()); }
+    // block moves, block sizes 2..16 (whether or not the block size divides n: the remainder is a tail)
+    for b in 2..=16usize
+    {
+        if 2 * b > n { break; }
+        if !dense && ![3, 8, 16].contains(&b) { continue; }
+        let nb = n / b;
+        // adjacent blocks swapped pairwise, rest fixed
+        let mut p = id.clone();
+        let mut s = 0; while s + 2 * b <= n { for i in 0..b { p[s + i] = s + b + i; p[s + b + i] = s + i; } s += 2 * b; }
+        ps.push(p);
+        // the first two blocks swapped, tail shuffled
+        let mut p = id.clone(); for i in 0..b { p[i] = b + i; p[b + i] = i; }
+        rng.shuffle(&mut p[2 * b..]); ps.push(p);
+        // whole blocks in random order, remainder shuffled within itself
+        let mut order: Vec<usize> = (0..nb).collect(); rng.shuffle(&mut order);
+        let mut p = id.clone(); for j in 0..nb { for i in 0..b { p[j * b + i] = order[j] * b + i; } }
+        rng.shuffle(&mut p[nb * b..]); ps.push(p);
+        // first and last block swapped (the last one is at an unaligned offset when b does not divide n)
+        let mut p = id.clone(); for i in 0..b { p[i] = n - b + i; p[n - b + i] = i; }
+        ps.push(p);
+        // remainder moved to the front, whole blocks behind it (= rotation by nb*b) is among the rotations
+    }
+    // fixed prefix + shuffled tail, shuffled prefix + fixed tail
+    let cuts: Vec<usize> = if dense && n <= 16 { (1..n).collect() }
+        else { [1, 2, 7, 8, 9, 16, 17, n / 2, n - 1, n - 8].iter().cloned().filter(|&k| k > 0 && k < n).collect() };
+    for &c in cuts.iter()
+    {
+        let mut p = id.clone(); rng.shuffle(&mut p[c..]); ps.push(p);
+        let mut p = id.clone(); rng.shuffle(&mut p[..c]); ps.push(p);
+    }
+    // products of disjoint cycles of chosen lengths, on consecutive labels and on shuffled labels
+    let mut types: Vec<Vec<usize>> = Vec::new();
+    for l in 2..=7usize { if l <= n { types.push(vec![l; n / l]); types.push(vec![l]); } }
+    types.push(vec![n]);
+    if n > 1 { types.push(vec![n - 1, 1]); types.push(vec![1, n - 1]); }
+    for &k in interesting.iter().take(4) { types.push(vec![k, n - k]); }
+    { let mut t = Vec::new(); let mut s = 0; let mut l = 1; while s + l <= n { t.push(l); s += l; l += 1; } types.push(t.clone()); t.reverse(); types.push(t); }
+    { let mut t = Vec::new(); let mut s = 0; while s < n { let l = 1 + rng.below(((n - s).min(9)) as u64) as usize; t.push(l); s += l; } types.push(t); }
+    for t in types.iter()
+    {
+        ps.push(from_cycles(n, t, &id));
+        let mut labels = id.clone(); rng.shuffle(&mut labels);
+        ps.push(from_cycles(n, t, &labels));
+    }
+    // perfect shuffles (any even n), bit reversal and bit rotations (powers of two)
+    if n % 2 == 0
+    {
+        ps.push((0..n).map(|i| if i % 2 == 0 { i / 2 } else { n / 2 + i / 2 }).collect());
+        ps.push((0..n).map(|i| if i % 2 == 1 { i / 2 } else { n / 2 + i / 2 }).collect());
+    }
+    if n.is_power_of_two() && n > 1
+    {
+        let m = n.trailing_zeros();
+        ps.push((0..n).map(|i| i.reverse_bits() >> (usize::BITS - m)).collect());
+        for r in 1..m { ps.push((0..n).map(|i| ((i << r) | (i >> (m - r))) & (n - 1)).collect()); }
+        for bit in 0..m { ps.push((0..n).map(|i| i ^ (1 << bit)).collect()); }       // X on one bit: aligned block swaps
+        if m >= 2 { for c in 0..m { for t in 0..m { if c != t { ps.push((0..n).map(|i| if i >> c & 1 == 1 { i ^ (1 << t) } else { i }).collect()); } } } }
+    }
+    // and their inverses: explicitly for small n; for every n through the derived-object requests (`dinto p | k` with odd
+    // k is apply_vec_into of the object p.inverse()), which ops_on_ctx emits for each of them
+    if n <= 12 { let invs: Vec<Vec<usize>> = ps.iter().map(|p| inverse_of(p)).collect(); ps.extend(invs); }
+    let mut seen = std::collections::HashSet::new();
+    ps.retain(|p| seen.insert(p.clone()));
+    for p in ps.iter() { debug_assert!(Permutation::new(p.clone()).is_ok()); }
+    ps
+}
+
+fn structured_stream(out: &mut Out, rng: &mut SplitMix64)
+{
+    let dense_to = if thorough() { 64 } else { 40 };
+    let extra: &[usize] = if thorough() { &[65, 72, 96, 100, 127, 128, 129, 130, 255, 256, 257] } else { &[48, 64, 65, 100, 129] };
+    let sizes: Vec<usize> = (1..=dense_to).chain(extra.iter().cloned()).collect();
+    for &n in sizes.iter()
+    {
+        for (j, p) in structured(n, rng, n <= dense_to).iter().enumerate()
+        {
+            out.case(&format!("new {}", join(p)), &show_new(&Permutation::new(p.clone())));
+            // the O(n^2)-payload operations for every small one and for a sample of the larger ones
+            let full = n <= 6 || (n <= 40 && j % 40 == 3) || (n <= 65 && j % 256 == 5);
+            ops_on_ctx(out, p, rng, None, if full { Level::Full } else { Level::Vec }, true);
+        }
+    }
+}
+
+// ------------------------------------------------------------------------------------------------------------------
+// fault injection: a mis-sized call (which may panic half way), then normal use of ANOTHER object on the same thread
+
+fn fault_stream(out: &mut Out, rng: &mut SplitMix64)
+{
+    let nfault = if thorough() { 600 } else { 60 };
+    for it in 0..nfault
+    {
+        // the permutation of the failing call
+        let n = if it % 7 == 6 { rng.range(13, 40) as usize } else { rng.range(1, 12) as usize };
+        let mut fidx: Vec<usize> = (0..n).collect();
+        match it % 5
+        {
+            0 => { let k = 1 + rng.below(n as u64) as usize; fidx = (0..n).map(|i| (i + k) % n).collect(); },   // rotation (one long cycle)
+            1 => { fidx.reverse(); },
+            2 => { let c = rng.below(n as u64) as usize; rng.shuffle(&mut fidx[c..]); },
+            _ => rng.shuffle(&mut fidx)
+        }
+        // the object used afterwards: small, with non-trivial cycles at low and high indices
+        let m = rng.range(2, 10) as usize;
+        let mut tidx: Vec<usize> = (0..m).collect();
+        match rng.below(4)
+        {
+            0 => { for i in (0..m - 1).step_by(2) { tidx.swap(i, i + 1); } },
+            1 => { let k = 1 + rng.below(m as u64 - 1) as usize; tidx = (0..m).map(|i| (i + k) % m).collect(); },
+            _ => { rng.shuffle(&mut tidx); if tidx.iter().enumerate().all(|(i, &x)| i == x) { tidx.swap(0, m - 1); } }
+        }
+        // every kind of mis-sizing of every operation that takes a vector / matrix
+        let lens: Vec<usize> = { let mut l = vec![0, 1, n / 2, n.saturating_sub(1), n.saturating_sub(2), n + 1, n + 3, 2 * n + 1];
+                                 l.retain(|&x| x != n); l.sort(); l.dedup(); l };
+        let mut faults: Vec<Fault> = Vec::new();
+        for &l in lens.iter()
+        {
+            let d = |rng: &mut SplitMix64, k: usize| -> Vec<i64> { (0..k).map(|_| rng.range(-99, 99)).collect() };
+            faults.push(Fault { kind: "xinplace", idxs: fidx.clone(), rows: 0, cols: 0, data: d(rng, l) });
+            for &(src, dst) in [(l, n), (n, l), (l, l), (l, n + 2)].iter()
+            {
+                faults.push(Fault { kind: "xinto", idxs: fidx.clone(), rows: 0, cols: dst, data: d(rng, src) });
+                faults.push(Fault { kind: "xinvinto", idxs: fidx.clone(), rows: 0, cols: dst, data: d(rng, src) });
+            }
+            for &(r, c) in [(l, l), (n, l), (l, n)].iter()
+            {
+                if r * c <= 400 { faults.push(Fault { kind: "xtransform", idxs: fidx.clone(), rows: r, cols: c, data: d(rng, r * c) }); }
+            }
+        }
+        // all in-place faults (the only operation with a multi-step loop over caller data) and a sample of the others
+        let chosen: Vec<&Fault> = faults.iter().filter(|f| f.kind == "xinplace" || rng.below(6) == 0).collect();
+        for f in chosen
+        {
+            // the mis-sized call itself, predicted by the model (on a fresh thread like everything in this stream)
+            let a = std::thread::scope(|s| s.spawn(|| f.run()).join().unwrap_or("abort".to_string()));
+            out.case(&f.req(), &a);
+            // ... and, immediately after it on one thread, each normal operation on the other object
+            ops_on_ctx(out, &tidx, rng, Some(f), Level::Full, true);
+        }
     }
 }
 
@@ -211,6 +459,8 @@ fn main()
         out.case(&format!("new {}", join(&idxs)), &show_new(&r));
         if r.is_ok() { ops_on(&mut out, &idxs, &mut rng); }
     }
+    structured_stream(&mut out, &mut rng);
+    fault_stream(&mut out, &mut rng);
     let n = out.finish();
     eprintln!("c17: {} cases", n);
 }
